@@ -8,9 +8,11 @@ mod c05;
 mod c06;
 mod c07;
 mod c08;
+mod c13;
 mod c14;
 mod c17;
 mod c18;
+mod c19;
 mod common;
 mod corpus;
 mod diff;
@@ -77,9 +79,11 @@ fn main() {
         "C06" => c06::run(&ctx),
         "C07" => c07::run(&ctx),
         "C08" => c08::run(&ctx),
+        "C13" => c13::run(&ctx),
         "C14" => c14::run(&ctx),
         "C17" => c17::run(&ctx),
         "C18" => c18::run(&ctx),
+        "C19" => c19::run(&ctx),
         _ => {
             eprintln!("unknown property id {}", id);
             std::process::exit(2);
